@@ -128,7 +128,7 @@ func GenLeaf(t *rapid.T, tab Table, o ClauseOpt) Clause {
 		case pick == 4:
 			n := rapid.IntRange(0, 4).Draw(t, "listn")
 			if rapid.IntRange(0, 5).Draw(t, "longlist") == 0 {
-				n = rapid.IntRange(12, 20).Draw(t, "longlistn") // long enough for set implementations other than a scan
+				n = longListLen(t) // long enough for set implementations other than a scan
 			}
 			li := make([]int, n)
 			for i := range li {
@@ -223,7 +223,7 @@ func GenLeaf(t *rapid.T, tab Table, o ClauseOpt) Clause {
 		case pick == 4:
 			n := rapid.IntRange(0, 4).Draw(t, "listn")
 			if rapid.IntRange(0, 5).Draw(t, "longlist") == 0 {
-				n = rapid.IntRange(12, 20).Draw(t, "longlistn")
+				n = longListLen(t)
 			}
 			ls := make([]string, n)
 			for i := range ls {
@@ -281,4 +281,13 @@ func genKids(t *rapid.T, tab Table, depth int, o ClauseOpt) []Clause {
 		kids[i] = GenClause(t, tab, depth-1, o)
 	}
 	return kids
+}
+
+// longListLen: 12-20 entries, or a length at the sizes at which a set implementation may change its representation
+// (sorted slice and binary search, bitmap, map) - the entries stay unsorted and repeat.
+func longListLen(t *rapid.T) int {
+	if rapid.IntRange(0, 2).Draw(t, "verylonglist") == 0 {
+		return rapid.SampledFrom([]int{31, 32, 33, 40, 63, 64, 65, 70, 127, 128, 129, 255, 256, 257, 300}).Draw(t, "verylonglistn")
+	}
+	return rapid.IntRange(12, 20).Draw(t, "longlistn")
 }
